@@ -450,6 +450,7 @@ func (rn *runner) replay(path string) {
 	var rws []rwCase
 	var cts []ctorCase
 	var pps [][]string
+	var lxs []lxCase
 	for _, l := range hlib.ReplayLines(path) {
 		// harness-decided verdict lines come back as "PROPFAIL sem ..." / "OK sem ..."
 		for _, pre := range []string{"PROPFAIL ", "OK ", "KNOWN "} {
@@ -485,6 +486,13 @@ func (rn *runner) replay(path string) {
 			cts = append(cts, ctorCase{f[1], p1, p2})
 		case len(f) >= 1 && f[0] == "pp":
 			pps = append(pps, f[1:])
+		case len(f) == 2 && f[0] == "lx":
+			p, err := unhx(f[1])
+			if err != nil {
+				bad()
+				continue
+			}
+			lxs = append(lxs, lxCase{p})
 		case len(f) >= 3 && f[0] == "sem":
 			rn.semReplay(f[1:], l)
 		default:
@@ -495,6 +503,7 @@ func (rn *runner) replay(path string) {
 	rn.rw(rws)
 	rn.ctor(cts)
 	rn.pp(pps)
+	rn.lx(lxs)
 }
 
 func chunk[T any](xs []T, n int, f func([]T)) {
@@ -621,6 +630,9 @@ func main() {
 
 	if nPP >= 0 {
 		rn.ppAll(r, nPP)
+	}
+	if want("lx") {
+		rn.lxAll(hlib.NewRand(cfg.Seed^0x6c78), cfg.Thorough()) // own stream: the other kinds keep their cases
 	}
 
 	rn.semAll(r, nEv, nCli, nRepl)
